@@ -181,6 +181,10 @@ def state_unit(ctx):
     we0 = [st.section_scope_mapping["run"][s].weighted_elapsed.t for s in scopes]
     rc0 = st.running_count.t
     t_prev = now["t"]
+    # the notification arrives at some later instant, whether or not the code looks at the clock
+    t_begin = ctx.fresh(RealS, "t_begin")
+    ctx.assume(t_begin >= now["t"])
+    now["t"] = t_begin
     simple_time = simple.time
     simple.time = _time
     try:
@@ -212,6 +216,11 @@ def state_unit(ctx):
         dsum = sum(st.section_scope_mapping["run"][s].weighted_elapsed.t - w for s, w in zip(scopes, we0))
         ctx.check("elapsed:sum-of-weighted_elapsed-grows-by-exactly-the-elapsed-time-while-something-was-running,else-not-at-all",
                   z3.If(rc0 > 0, dsum == elapsed, dsum == 0), props=["C20"])
+        # the clock of the attribution advances with EVERY notification, also while nothing runs: otherwise idle time (planning,
+        # transform_physical, gaps between serial calls) is billed to whichever scope starts next
+        pt = SReal.of(getattr(st, "_prev_time", None))
+        ctx.check("elapsed:the-attribution-clock-advances-to-the-time-of-every-notification(idle-time-is-never-billed-later)",
+                  z3.And(pt >= t_begin, pt <= now["t"]) if pt is not None else False, props=["C20"])
         return "ok"
     finally:
         simple.time = simple_time
@@ -231,15 +240,46 @@ class OpaqueVal:
         return hash(self.i)
 
 
+class PartialOrderVal(OpaqueVal):
+    """hashable + equatable; what ``<`` does between two such values is NOT promised by Plan.scope: per ordered pair it either
+    raises TypeError or answers (the outcome is a decision of the path; e.g. ('eu', 1) < ('eu', None) raises although each
+    value compares with itself, a naive and an aware datetime likewise)"""
+
+    ctx = None
+    outcomes = None
+
+    def __lt__(self, o):
+        if not isinstance(o, PartialOrderVal):
+            return NotImplemented
+        key = (self.i, o.i)
+        oc = PartialOrderVal.outcomes
+        if key not in oc:
+            oc[key] = PartialOrderVal.ctx.choose(3, f"lt({self.i},{o.i})")
+        if oc[key] == 0:
+            raise TypeError(f"'<' not supported between instances {self.i} and {o.i}")
+        return oc[key] == 1
+
+    def __gt__(self, o):
+        if not isinstance(o, PartialOrderVal):
+            return NotImplemented
+        return o.__lt__(self)
+
+    def __str__(self):
+        return f"pov{self.i}"
+
+
 @unit("progress.sorted_scope_items", props=["C20"], functions=[(SP, "sorted_scope_items"), (SP, "_universal_sort_key")],
-      assumptions=["generic opaque scope values stand for every hashable+equatable value"], min_obligations=3)
+      assumptions=["generic opaque scope values stand for every hashable+equatable value; '<' between two of them answers or raises TypeError, decided per ordered pair",
+                   "str() of a scope value does not raise"], min_obligations=3)
 def sorted_unit(ctx):
     simple, comp, po = _mods()
     env = {}
     get(SP, "_universal_sort_key").compile_into(env)
     f = get(SP, "sorted_scope_items").compile_into(env)
-    k = ctx.choose(4, "scope-kinds")
+    k = ctx.choose(5, "scope-kinds")
+    PartialOrderVal.ctx, PartialOrderVal.outcomes = ctx, {}
     scopes = [
+        {(PartialOrderVal(1),): 1, (PartialOrderVal(2),): 2, ("x", PartialOrderVal(2)): 3, ("x", PartialOrderVal(3)): 4},  # '<' answers or raises per pair
         {(OpaqueVal(1),): 1, (OpaqueVal(2),): 2, (OpaqueVal(3), "x"): 3},  # one unorderable type
         {(1, "a"): 1, ("a", 1): 2, (None,): 3, ((1, 2),): 4, (2.5,): 5},      # mixed types
         {(1j,): 1, (2j,): 2, (OpaqueVal(1), 1j): 3},                         # complex numbers
@@ -249,7 +289,7 @@ def sorted_unit(ctx):
     ctx.check("total:never-raises-for-hashable+equatable-scope-values", bool(kind == "ret"), info=repr(val))
     if kind == "ret":
         ctx.check("returns-every-item-exactly-once", bool(sorted(map(id, [v for _, v in val])) == sorted(map(id, scopes.values())) and len(val) == len(scopes)))
-        if k == 3:
+        if k == 4:
             ctx.check("orderable-scopes-sorted-by-(type-name,value)", bool([s for s, _ in val] == [(), ("fn",), ("fn", "a"), ("fn", "s")]))
     return "ok"
 
@@ -261,8 +301,16 @@ def run_render_bounded(ctx):
 
     console = importlib.import_module("uberjob.progress._console_progress_observer")
     html = importlib.import_module("uberjob.progress._html_progress_observer")
-    n, bad = 0, []
-    scope_sets = [[("a",)], [("a",), ("b", 1)], [(OpaqueVal(1),), (OpaqueVal(2),)], [(1,), ("x",), (None,)]]
+    n, bad, n_ipy = 0, [], [0]
+    scope_sets = [[("a",)], [("a",), ("b", 1)], [(OpaqueVal(1),), (OpaqueVal(2),)], [(1,), ("x",), (None,)], [("eu", 1), ("eu", None)], [("fn.mod.name", 1j), ("fn.mod.name", 2j)]]
+    try:
+        ipy = importlib.import_module("uberjob.progress._ipython_progress_observer")
+        import contextlib
+        import io
+
+        import ipywidgets  # noqa: F401
+    except Exception:  # noqa: BLE001  (ipywidgets absent: the IPython display is then not covered at all)
+        ipy = None
     try:
         raise ValueError("boom")
     except ValueError as e:
@@ -279,7 +327,8 @@ def run_render_bounded(ctx):
                     ets = [(scs[0], (type(exc), exc, exc.__traceback__))] * nexc
                     for mk in (lambda: console.ConsoleProgressObserver(initial_update_delay=0, min_update_interval=0, max_update_interval=0),
                                lambda: html.HtmlProgressObserver(initial_update_delay=0, min_update_interval=0, max_update_interval=0)
-                               if hasattr(html, "HtmlProgressObserver") else None):
+                               if hasattr(html, "HtmlProgressObserver") else None,
+                               lambda: ipy.IPythonProgressObserver(initial_update_delay=0, min_update_interval=0, max_update_interval=0) if ipy else None):
                         try:
                             o = mk()
                         except TypeError:
@@ -288,6 +337,12 @@ def run_render_bounded(ctx):
                             continue
                         n += 1
                         try:
+                            if type(o).__name__ == "IPythonProgressObserver":
+                                n_ipy[0] += 1
+                                with contextlib.redirect_stdout(io.StringIO()):
+                                    o._render(state, 0, ets, 12.0)
+                                    o._render(state, len(ets), ets, 13.0)  # second rendering re-uses the widget cache
+                                continue
                             out = o._render(state, 0, ets, 12.0)
                             if out is None:
                                 bad.append(("None", type(o).__name__))
@@ -296,12 +351,15 @@ def run_render_bounded(ctx):
                                 bad.append((type(o).__name__, repr(e), [s for s in scs]))
     ctx.check("bounded/every-enumerated-state-renders-without-raising", bool(not bad), info=f"{n} renders; {bad}")
     ctx.check("bounded/nontrivial-number-of-states", bool(n > 200), info=str(n))
+    ctx.check("bounded/the-IPython-display-was-rendered-too(ipywidgets-importable)", bool(n_ipy[0] > 50), info=str(n_ipy[0]))
     return "ok"
 
 
 unit("progress.render[bounded]", props=["C20"], functions=[("progress/_console_progress_observer.py", "ConsoleProgressObserver._render"),
-                                                           ("progress/_html_progress_observer.py", "HtmlProgressObserver._render")],
-     assumptions=["bounded stand-in: <= 2 sections x <= 3 scopes, counts <= 2"], min_obligations=2, kind="bounded")(run_render_bounded)
+                                                           ("progress/_html_progress_observer.py", "HtmlProgressObserver._render"),
+                                                           ("progress/_ipython_progress_observer.py", "IPythonProgressObserver._render")],
+     assumptions=["bounded stand-in: <= 2 sections x <= 3 scopes, counts <= 2", "the IPython display is rendered on the real ipywidgets outside a notebook (display() prints a repr)"],
+     min_obligations=3, kind="bounded")(run_render_bounded)
 
 
 # ---- update thread: the last rendering reflects the final state ---------------------------------------------------
@@ -373,6 +431,7 @@ def final_render_unit(ctx):
 
     class Lock:
         def __enter__(self_):
+            u["held"] = True
             # other threads' notifications may have happened since the last release - unless the run is over
             if not done_flag["set"]:
                 nv = ctx.fresh(IntS, "version")
@@ -383,6 +442,7 @@ def final_render_unit(ctx):
                 u["version"], s.stale_t = nv, ns
 
         def __exit__(self_, *a):
+            u["held"] = False
             return False
 
     class Event:
@@ -399,6 +459,7 @@ def final_render_unit(ctx):
             pass
 
     def _render(state, nei, ets, elapsed):
+        ctx.check("snapshot-rendered-while-holding-_lock", bool(u.get("held")))
         u["rendered"] = u["version"]
         return ("rendering-of", u["version"])
 
@@ -420,13 +481,23 @@ def final_render_unit(ctx):
 
     # _stale is read/written as an attribute by the real code: map it onto the symbolic flag
     class SelfT(Self):
+        # _stale is shared with the notifying threads (which set it under _lock): the interference model above is only sound if the
+        # update thread, too, touches it only while holding _lock (Owicki-Gries: a protected variable) - otherwise a notification that
+        # lands between the snapshot and an unlocked ``_stale = False`` is lost and the final rendering is skipped
         @property
         def _stale(self_):
+            ctx.check("protected-read[_stale]:only-while-holding-_lock", bool(u.get("held")))
             return ctx.branch(s.stale_t, "stale")
 
         @_stale.setter
         def _stale(self_, v):
-            s.stale_t = z3.BoolVal(bool(v))
+            ctx.check("protected-write[_stale]:only-while-holding-_lock", bool(u.get("held")))
+            if v is False or v is True:
+                s.stale_t = z3.BoolVal(v)
+            else:
+                raise Unsupported("_stale set to a non-boolean")
+            if v is False:
+                u["cleared_at_version"] = u["version"]
 
     s.__class__ = SelfT
     vc = VC(ctx, loops={})
@@ -449,27 +520,114 @@ import sys, io, contextlib, threading
 import uberjob
 from uberjob.progress._console_progress_observer import ConsoleProgressObserver
 
-class V:                       # merely hashable and equatable, as Plan.scope requires
-    def __init__(self, i): self.i = i
-    def __eq__(self, o): return isinstance(o, V) and o.i == self.i
-    def __hash__(self): return hash(self.i)
-
-errors = []
-threading.excepthook = lambda a: errors.append(a.exc_value)
-plan = uberjob.Plan()
-outs = []
-for i in range(3):
-    with plan.scope(V(i)):
-        outs.append(plan.call(lambda: 1))
-buf = io.StringIO()
-with contextlib.redirect_stdout(buf):
-    obs = ConsoleProgressObserver(initial_update_delay=0, min_update_interval=0.01, max_update_interval=0.01)
-    uberjob.run(plan, output=outs, progress=uberjob.progress.Progress(lambda: obs))
-shown = buf.getvalue()
-if errors or "3 / 3" not in shown.replace("1 / 1", "3 / 3") and "1 / 1" not in shown:
-    print("C20 violated: the progress display stopped updating:", errors[:1], "final display:", repr(shown[-200:])); sys.exit(1)
-print("ok"); sys.exit(0)
+def scenario(MODE):
+    class V:                       # merely hashable and equatable, as Plan.scope requires
+        def __init__(self, i): self.i = i
+        def __eq__(self, o): return isinstance(o, V) and o.i == self.i
+        def __hash__(self): return hash(self.i)
+        def __str__(self): return "V%d" % self.i
+        if MODE == "partial":      # '<' answers for the value itself and raises for another one (like ('eu', 1) < ('eu', None))
+            def __lt__(self, o):
+                if isinstance(o, V) and o.i == self.i: return False
+                raise TypeError("'<' not supported")
+    errors = []
+    threading.excepthook = lambda a: errors.append(a.exc_value)
+    plan = uberjob.Plan()
+    outs = []
+    for i in range(3):
+        with plan.scope("x", V(i)):
+            outs.append(plan.call(lambda: 1))
+    buf = io.StringIO()
+    with contextlib.redirect_stdout(buf):
+        obs = ConsoleProgressObserver(initial_update_delay=0, min_update_interval=0.01, max_update_interval=0.01)
+        uberjob.run(plan, output=outs, progress=uberjob.progress.Progress(lambda: obs))
+    shown = buf.getvalue()
+    if errors or "1 / 1" not in shown:
+        print("C20 violated (%s scope values): the progress display stopped updating:" % MODE, errors[:1], "final display:", repr(shown[-200:])); return 1
+    return 0
+rc = scenario("unorderable") + scenario("partial")
+print("ok" if not rc else "failed"); sys.exit(1 if rc else 0)
 """
+
+
+FINAL_RENDER_SCRIPT = """
+import sys, threading, time
+import uberjob
+from uberjob.progress._simple_progress_observer import SimpleProgressObserver
+assert uberjob.__file__
+
+class Obs(SimpleProgressObserver):
+    # a notification arrives exactly while a rendering is being emitted (here: delivered from inside _output, where the
+    # lock is not held - the same as another thread doing it at that moment); nothing follows it but the end of the run
+    def __init__(self):
+        super().__init__(initial_update_delay=0, min_update_interval=0.01, max_update_interval=3600)
+        self.outs, self.fired = [], False
+    def _render(self, state, new_exception_index, exception_tuples, elapsed):
+        ss = state["run"][("s",)]
+        return (ss.completed, ss.total)
+    def _output(self, value):
+        self.outs.append(value)
+        if not self.fired:
+            self.fired = True
+            self.increment_completed(section="run", scope=("s",))
+            done.set()
+done = threading.Event()
+o = Obs()
+o.increment_total(section="run", scope=("s",), amount=1)
+o.increment_running(section="run", scope=("s",))
+o.__enter__()
+done.wait(10)
+o.__exit__(None, None, None)
+if not o.outs or o.outs[-1] != (1, 1):
+    print("C20 violated: the last rendering emitted is", o.outs[-1:] , "but the final counts are completed=1 total=1; renderings:", o.outs); sys.exit(1)
+print("ok", o.outs); sys.exit(0)
+"""
+
+
+ELAPSED_SCRIPT = """
+import sys
+import uberjob
+import uberjob.progress._simple_progress_observer as spo
+clock = [100.0]
+class _T:
+    @staticmethod
+    def time(): return clock[0]
+spo.time = _T
+st = spo.State(clock[0])
+st.increment_total("run", ("a",), 1); st.increment_total("run", ("b",), 1)
+clock[0] += 10          # ten idle seconds (planning, transform_physical, ...)
+st.increment_running("run", ("a",))
+clock[0] += 2
+st.increment_completed("run", ("a",))
+clock[0] += 5           # idle gap between two serial calls
+st.increment_running("run", ("b",))
+clock[0] += 3
+st.increment_completed("run", ("b",))
+a, b = st.section_scope_mapping["run"][("a",)].weighted_elapsed, st.section_scope_mapping["run"][("b",)].weighted_elapsed
+if abs(a - 2) > 1e-9 or abs(b - 3) > 1e-9:
+    print("C20 violated: 5 s during which a call was running, but the scopes are billed", a, "+", b); sys.exit(1)
+print("ok", a, b); sys.exit(0)
+"""
+
+
+def _replay_elapsed(ob):
+    import os
+    import subprocess
+
+    from ujvc.z3env import REPO_SRC
+
+    p = subprocess.run(["/venv/bin/python", "-c", ELAPSED_SCRIPT], env=dict(os.environ, PYTHONPATH=REPO_SRC), capture_output=True, text=True, timeout=120)
+    return {"reproduced": p.returncode == 1, "detail": (p.stdout + p.stderr)[-2000:], "script": ELAPSED_SCRIPT}
+
+
+def _replay_final(ob):
+    import os
+    import subprocess
+
+    from ujvc.z3env import REPO_SRC
+
+    p = subprocess.run(["/venv/bin/python", "-c", FINAL_RENDER_SCRIPT], env=dict(os.environ, PYTHONPATH=REPO_SRC), capture_output=True, text=True, timeout=120)
+    return {"reproduced": p.returncode == 1, "detail": (p.stdout + p.stderr)[-2000:], "script": FINAL_RENDER_SCRIPT}
 
 
 def _replay(ob):
@@ -482,4 +640,4 @@ def _replay(ob):
     return {"reproduced": p.returncode == 1, "detail": (p.stdout + p.stderr)[-2000:], "script": F5_SCRIPT}
 
 
-REPLAYS = [("progress.*", _replay)]
+REPLAYS = [("progress.final-render*", _replay_final), ("progress.State/elapsed*", _replay_elapsed), ("progress.*", _replay)]
